@@ -47,13 +47,13 @@ def make_transform(ck, kind, force_sym=None, cover=None):
         nb, c, J = cover[:3]
         if len(cover) > 3:           # ... and degenerate extents: an axis of one or two samples, or one that collapses to 1 at a coarse level
             thin, m = cover[3], cover[4]
-            L = rng.choice([2, 4]); w0 = gen.int_filter(rng, L); w1 = gen.int_filter(rng, L)
+            L = cover[5] if len(cover) > 5 else rng.choice([2, 4]); w0 = gen.int_filter(rng, L); w1 = gen.int_filter(rng, L)
     if kind == 'DWT1DForward':
         N = max(2, L + rng.randint(0, 12)) if thin is None else thin[1]
         return ('DWT1DForward mode=%s J=%d L=%d' % (gen.MODE_NAME[m], J, L), [(nb, c, N)],
                 lambda xs: rt.run_impl(rt.Case('Z', 'DWT1DForward', [m, J], [w0, w1, xs[0]]), TABLE), 0.0)
     if kind == 'DWT1DInverse':
-        N = max(2, L + rng.randint(0, 12))
+        N = max(2, L + rng.randint(0, 12)) if thin is None else thin[1]
         yl, yh = make_pyramid(rng, 1, nb, c, N, L, L, m, J, p_none=0.0)
         return ('DWT1DInverse mode=%s J=%d L=%d' % (gen.MODE_NAME[m], J, L), [yl.shape] + [h.shape for h in yh],
                 lambda xs: rt.run_impl(rt.Case('Z', 'DWT1DInverse', [m], [w0, w1] + list(xs)), TABLE), 0.0)
@@ -65,22 +65,29 @@ def make_transform(ck, kind, force_sym=None, cover=None):
                 lambda xs: rt.run_impl(rt.Case('Z', 'DWTForward', [m, J, 2], [w0, w1, xs[0]]), TABLE), 0.0)
     if kind == 'DWTInverse':
         H = max(2, L + rng.randint(0, 8)); W = max(2, L + rng.randint(0, 8))
+        if thin is not None:
+            H, W = thin
         yl, yh = make_pyramid(rng, 2, nb, c, (H, W), L, L, m, J, p_none=0.0)
         return ('DWTInverse mode=%s J=%d L=%d' % (gen.MODE_NAME[m], J, L), [yl.shape] + [h.shape for h in yh],
                 lambda xs: rt.run_impl(rt.Case('Z', 'DWTInverse', [m, 2], [w0, w1] + list(xs)), TABLE), 0.0)
     if kind == 'SWTForward':
         Js = rng.randint(1, 2) if cover is None else min(J, 2)
-        return ('SWTForward J=%d L=%d' % (Js, L), [(nb, c, 4 * rng.randint(1, 3), 4 * rng.randint(1, 3))],
+        swsh = (4 * rng.randint(1, 3), 4 * rng.randint(1, 3)) if thin is None else (4 * ((thin[0] + 3) // 4), 4 * ((thin[1] + 3) // 4))
+        return ('SWTForward J=%d L=%d' % (Js, L), [(nb, c) + swsh],
                 lambda xs: rt.run_impl(rt.Case('Z', 'SWTForward', [2, Js, 2], [w0, w1, xs[0]]), TABLE), 0.0)
     filt = dt_filters(rng)
     o, ri = (2, -1) if rng.random() < 0.6 else rng.choice(LAYOUTS)
     sym = rng.choice([1, 1, 0]) if force_sym is None else force_sym         # 'symmetric' and 'zero' padding
     if kind == 'DTCWTForward':
         H = rng.randint(2, 14); W = rng.randint(2, 14)
+        if thin is not None:
+            H, W = thin
         skm = rng.choice([0, 0, rng.randint(0, 2 ** J - 1)])
         return ('DTCWTForward J=%d layout=(%d,%d) skip=%s mode=%s' % (J, o, ri, bin(skm), 'symmetric' if sym else 'zero'), [(nb, c, H, W)],
                 lambda xs: rt.run_impl(rt.Case('Q', 'DTCWTForward', [o, ri, sym, J, skm, 0], filt + [xs[0]]), TABLE), 1e-9, (o, ri))
     H = rng.randint(2, 14); W = rng.randint(2, 14)
+    if thin is not None:
+        H, W = thin
     (lh, lw), hsz = pyramid_shapes(H, W, J)
     shapes = [(nb, c, lh, lw)] + [canon_to_layout(np.zeros((nb, c, 6, a, b, 2)), o, ri).shape for a, b in hsz]
     return ('DTCWTInverse J=%d layout=(%d,%d) mode=%s' % (J, o, ri, 'symmetric' if sym else 'zero'), shapes,
@@ -229,6 +236,15 @@ def run(ck):
         for (thin, J_) in (((1, 9), 1), ((9, 1), 1), ((2, 7), 2), ((4, 32), 4), ((1, 1), 1), ((3, 8), 5)):
             rt.guard(ck, oracle_linear, ck, 'DWTForward', None, None, (2, 3, J_, thin, m_))
             rt.guard(ck, oracle_linear, ck, 'DWT1DForward', None, None, (2, 3, J_, thin, m_))
+    # sizes above every blocking / tiling / chunking threshold (gen.scale_shapes_2d): every transform with more than 64 channels
+    # (not a multiple of 64), more than 64 slices with several batch items, tall and wide images; several levels
+    for k, shp in enumerate(gen.scale_shapes_2d(ck.tier)):
+        for kind in KINDS:
+            if q and (k + KINDS.index(kind)) % 2 and shp[0] * shp[1] == 1:
+                continue
+            J_ = 2 + k % 2
+            thin = (shp[2], shp[3]) if kind not in ('DWT1DForward', 'DWT1DInverse') else (1, max(shp[2], shp[3]))
+            rt.guard(ck, oracle_linear, ck, kind, None, None, (shp[0], shp[1], J_, thin, gen.MODES5[k % 5], [4, 6, 10][k % 3]))
     for it in range(70 if q else 700):
         rt.guard(ck, oracle_linear, ck, KINDS[it % len(KINDS)])
     # present-but-zero arguments in both padding modes: every argument position of the inverse transforms in turn
